@@ -243,13 +243,16 @@ func TestRouting(t *testing.T) {
 	}{{1, 7}, {2, 13}, {3, 7}, {2, 71}}
 	for si, evs := range seqs {
 		cf := cfgs[si%len(cfgs)]
-		c, err := cluster.Start(cluster.Options{Replicas: cf.R, Partitions: cf.P, Manual: true}, 1)
+		// every third sequence runs with the members' own timers (routing-table push every 200 ms, balancer every 100 ms)
+		// instead of pushes and balancer runs triggered by the driver
+		manual := si%3 != 2
+		c, err := cluster.Start(cluster.Options{Replicas: cf.R, Partitions: cf.P, Manual: manual}, 1)
 		if err != nil {
 			t.Fatal(err)
 		}
 		w := &world{c: c, byModel: map[int]*cluster.Member{1: c.Members[0]}, order: []*cluster.Member{c.Members[0]}, w: tw, R: cf.R}
 		var desc []string
-		tw.Emit(trace.Ev{"t": "reset", "seq": si + 1, "cfg": fmt.Sprintf("R=%d P=%d", cf.R, cf.P)})
+		tw.Emit(trace.Ev{"t": "reset", "seq": si + 1, "cfg": fmt.Sprintf("R=%d P=%d manual=%v", cf.R, cf.P, manual)})
 		w.write(20)
 		failed := false
 		changes := 0
